@@ -6,6 +6,7 @@
    alice_protocol_reader/src/rdh/rdh_cru.rs
    fastpasta/src/words/its.rs
    fastpasta/src/analyze/validators/rdh.rs
+   fastpasta/src/analyze/validators/rdh_running.rs
 -/
 import FastPasta.Spec.RsPrelude
 set_option linter.unusedVariables false
@@ -13,7 +14,7 @@ namespace FastPasta
 namespace SrcRdh
 structure FeeId where
   f_0 : Nat
-  deriving DecidableEq, Repr
+  deriving DecidableEq, Repr, Inhabited
 structure Rdh0 where
   f_header_id : Nat
   f_header_size : Nat
@@ -21,31 +22,31 @@ structure Rdh0 where
   f_priority_bit : Nat
   f_system_id : Nat
   f_reserved0 : Nat
-  deriving DecidableEq, Repr
+  deriving DecidableEq, Repr, Inhabited
 structure BcReserved where
   f_0 : Nat
-  deriving DecidableEq, Repr
+  deriving DecidableEq, Repr, Inhabited
 structure Rdh1 where
   f_bc_reserved0 : BcReserved
   f_orbit : Nat
-  deriving DecidableEq, Repr
+  deriving DecidableEq, Repr, Inhabited
 structure Rdh2 where
   f_trigger_type : Nat
   f_pages_counter : Nat
   f_stop_bit : Nat
   f_reserved0 : Nat
-  deriving DecidableEq, Repr
+  deriving DecidableEq, Repr, Inhabited
 structure Rdh3 where
   f_detector_field : Nat
   f_par_bit : Nat
   f_reserved0 : Nat
-  deriving DecidableEq, Repr
+  deriving DecidableEq, Repr, Inhabited
 structure DataformatReserved where
   f_0 : Nat
-  deriving DecidableEq, Repr
+  deriving DecidableEq, Repr, Inhabited
 structure CruidDw where
   f_0 : Nat
-  deriving DecidableEq, Repr
+  deriving DecidableEq, Repr, Inhabited
 structure RdhCru where
   f_rdh0 : Rdh0
   f_offset_new_packet : Nat
@@ -59,11 +60,11 @@ structure RdhCru where
   f_reserved1 : Nat
   f_rdh3 : Rdh3
   f_reserved2 : Nat
-  deriving DecidableEq, Repr
+  deriving DecidableEq, Repr, Inhabited
 structure FeeIdSanityValidator where
   f_layer_min_max : (Nat × Nat)
   f_stave_number_min_max : (Nat × Nat)
-  deriving DecidableEq, Repr
+  deriving DecidableEq, Repr, Inhabited
 structure Rdh0Validator where
   f_header_id : (Option Nat)
   f_header_size : Nat
@@ -71,23 +72,30 @@ structure Rdh0Validator where
   f_priority_bit : Nat
   f_system_id : (Option Nat)
   f_reserved0 : Nat
-  deriving DecidableEq, Repr
+  deriving DecidableEq, Repr, Inhabited
 structure Rdh1Validator where
   f_valid_rdh1 : Rdh1
-  deriving DecidableEq, Repr
+  deriving DecidableEq, Repr, Inhabited
 structure Rdh2Validator where
-  deriving DecidableEq, Repr
+  deriving DecidableEq, Repr, Inhabited
 structure Rdh3Validator where
-  deriving DecidableEq, Repr
+  deriving DecidableEq, Repr, Inhabited
 structure RdhCruSanityValidator where
   f_rdh0_validator : Rdh0Validator
   f_rdh1_validator : Rdh1Validator
   f_rdh2_validator : Rdh2Validator
   f_rdh3_validator : Rdh3Validator
-  deriving DecidableEq, Repr
+  deriving DecidableEq, Repr, Inhabited
+structure RdhCruRunningChecker where
+  f_expect_pages_counter : Nat
+  f_first_rdh_cru : (Option RdhCru)
+  f_second_rdh_cru : (Option RdhCru)
+  f_expect_pages_counter_increment : Nat
+  f_last_rdh_cru : (Option RdhCru)
+  deriving DecidableEq, Repr, Inhabited
 inductive SpecializeChecks where
   | ITS
-  deriving DecidableEq, Repr
+  deriving DecidableEq, Repr, Inhabited
 def Rdh0.from_buf (buf : Bytes) : (Rs.Res Rdh0) :=
   (Rs.Res.ok { f_header_id := (bAt buf 0), f_header_size := (bAt buf 1), f_fee_id := { f_0 := (leField buf 2 2) : FeeId }, f_priority_bit := (bAt buf 4), f_system_id := (bAt buf 5), f_reserved0 := (leField buf 6 2) : Rdh0 })
 
@@ -215,6 +223,21 @@ def RdhCru.trigger_type (self_ : RdhCru) : Nat :=
 
 def RdhCru.offset_to_next (self_ : RdhCru) : Nat :=
   self_.f_offset_new_packet
+
+def RdhCruRunningChecker.check_stop_bit_and_page_counter (self_ : RdhCruRunningChecker) (rdh2 : Rdh2) : ((Rs.Res Unit) × RdhCruRunningChecker) :=
+  (let err_str := Rs.Str.empty; (let (err_str_2, self__3) := (if (rdh2.f_stop_bit == 0) then (let err_str_2 := (if (rdh2.f_pages_counter != self_.f_expect_pages_counter) then (let tmp := rdh2.f_pages_counter; (let err_str_3 := (err_str.app (Rs.Str.lit true [])); err_str_3)) else err_str); (let self__3 := { self_ with f_expect_pages_counter := ((self_.f_expect_pages_counter + self_.f_expect_pages_counter_increment) % 2^16) }; (err_str_2, self__3))) else (let (err_str_2, self__3) := (if (rdh2.f_stop_bit == 1) then (let err_str_2 := (if (rdh2.f_pages_counter != self_.f_expect_pages_counter) then (let tmp := rdh2.f_pages_counter; (let err_str_3 := (err_str.app (Rs.Str.lit true [])); err_str_3)) else err_str); (let self__3 := { self_ with f_expect_pages_counter := 0 }; (err_str_2, self__3))) else (let tmp := rdh2.f_stop_bit; (let err_str_3 := (err_str.app (Rs.Str.lit true [])); (err_str_3, self_)))); (err_str_2, self__3))); (if (!(!err_str_2.nonEmpty)) then ((Rs.Res.err err_str_2), self__3) else ((Rs.Res.ok ()), self__3))))
+
+def RdhCruRunningChecker.check_orbit_counter_changes (self_ : RdhCruRunningChecker) (rdh1 : Rdh1) : (Rs.Res Unit) :=
+  (if (match self_.f_last_rdh_cru with | some last_rdh_cru => (((RdhCru.stop_bit (last_rdh_cru)) == 1) && ((RdhCru.rdh1 (last_rdh_cru)).f_orbit == rdh1.f_orbit)) | none => false) then (let current_orbit := rdh1.f_orbit; (Rs.Res.err (Rs.Str.lit true []))) else (Rs.Res.ok ()))
+
+def RdhCruRunningChecker.check_orbit_trigger_det_field_feeid_same_when_page_not_0 (self_ : RdhCruRunningChecker) (rdh_cru : RdhCru) : (Rs.Res Unit) :=
+  (let err_str := Rs.Str.empty; (let err_str_2 := (if ((RdhCru.pages_counter (rdh_cru)) != 0) then (let err_str_2 := (if (self_.f_last_rdh_cru).isSome then (let err_str_2 := (if ((RdhCru.rdh1 (rdh_cru)).f_orbit != (RdhCru.rdh1 ((Rs.unwrapD self_.f_last_rdh_cru))).f_orbit) then (let tmp_current_orbit := (RdhCru.rdh1 (rdh_cru)).f_orbit; (let tmp_last_orbit := (RdhCru.rdh1 ((Rs.unwrapD self_.f_last_rdh_cru))).f_orbit; (let err_str_4 := (err_str.app (Rs.Str.lit true [])); err_str_4))) else err_str); (let err_str := (if ((RdhCru.rdh2 (rdh_cru)).f_trigger_type != (RdhCru.rdh2 ((Rs.unwrapD self_.f_last_rdh_cru))).f_trigger_type) then (let tmp_current_trigger_type := (RdhCru.rdh2 (rdh_cru)).f_trigger_type; (let tmp_last_trigger_type := (RdhCru.rdh2 ((Rs.unwrapD self_.f_last_rdh_cru))).f_trigger_type; (let err_str := (err_str_2.app (Rs.Str.lit true [])); err_str))) else err_str_2); (let err_str_4 := (if ((RdhCru.fee_id (rdh_cru)) != (RdhCru.fee_id ((Rs.unwrapD self_.f_last_rdh_cru)))) then (let tmp_current_fee_id := (RdhCru.fee_id (rdh_cru)); (let tmp_last_fee_id := (RdhCru.fee_id ((Rs.unwrapD self_.f_last_rdh_cru))); (let err_str_6 := (err_str.app (Rs.Str.lit true [])); err_str_6))) else err_str); err_str_4))) else err_str); err_str_2) else err_str); (if (!err_str_2.nonEmpty) then (Rs.Res.ok ()) else (Rs.Res.err err_str_2))))
+
+def RdhCruRunningChecker.check (self_ : RdhCruRunningChecker) (rdh : RdhCru) : ((Rs.Res Unit) × RdhCruRunningChecker) :=
+  (let self__1 := (if (self_.f_first_rdh_cru.isNone) then (let self__1 := { self_ with f_first_rdh_cru := (some rdh) }; self__1) else (let self__1 := (if (self_.f_second_rdh_cru.isNone) then (let self__1 := { self_ with f_second_rdh_cru := (some rdh) }; (let self_ := { self__1 with f_expect_pages_counter_increment := (RdhCru.rdh2 ((Rs.unwrapD self__1.f_second_rdh_cru))).f_pages_counter }; self_)) else self_); self__1)); (let err_str := Rs.Str.empty; (let c_5 := (RdhCruRunningChecker.check_stop_bit_and_page_counter (self__1) ((RdhCru.rdh2 (rdh)))); (let self_ := c_5.2; (let err_str_5 := (if (c_5.1).isErr then (let err_str_5 := (err_str.app (c_5.1).errStr); err_str_5) else err_str); (let err_str := (if ((RdhCruRunningChecker.check_orbit_counter_changes (self_) ((RdhCru.rdh1 (rdh))))).isErr then (let err_str := (err_str_5.app ((RdhCruRunningChecker.check_orbit_counter_changes (self_) ((RdhCru.rdh1 (rdh))))).errStr); err_str) else err_str_5); (let err_str_7 := (if ((RdhCruRunningChecker.check_orbit_trigger_det_field_feeid_same_when_page_not_0 (self_) (rdh))).isErr then (let err_str_7 := (err_str.app ((RdhCruRunningChecker.check_orbit_trigger_det_field_feeid_same_when_page_not_0 (self_) (rdh))).errStr); err_str_7) else err_str); (let self__8 := { self_ with f_last_rdh_cru := (some rdh) }; (if (!(!err_str_7.nonEmpty)) then (let err_str := ((Rs.Str.lit true [11]).app err_str_7); ((Rs.Res.err err_str), self__8)) else ((Rs.Res.ok ()), self__8))))))))))
+
+def RdhCruRunningChecker.new  : RdhCruRunningChecker :=
+  { f_expect_pages_counter := 0, f_first_rdh_cru := none, f_second_rdh_cru := none, f_expect_pages_counter_increment := 1, f_last_rdh_cru := none : RdhCruRunningChecker }
 
 /-! kernel-checked: every literal mask was split into contiguous runs correctly -/
 example : (Rs.mask 0 12) = 4095 := by decide
